@@ -187,38 +187,38 @@ def derived_cases(recs, objs):
         dtk = np.dtype(leaf_dtype(sp)).kind
         targets = ['f32', 'f64', 'c64', 'c128', 'i64']
         for t in targets:
-            cases.append((i, 'astype', t, [], lambda s, t=t: s.astype(L.DT[t])))
+            cases.append((i, 'astype', t, [], 'call', lambda s, t=t: s.astype(L.DT[t])))
         if dtk in 'fc':
             base = L.space_dtype(sp)
             real = {'c64': 'f32', 'c128': 'f64'}.get(base, base)
             cplx = {'f32': 'c64', 'f64': 'c128'}.get(base, base)
-            cases.append((i, 'real_space', real, [], lambda s: s.real_space))
-            cases.append((i, 'complex_space', cplx, [], lambda s: s.complex_space))
+            cases.append((i, 'real_space', real, [], 'property', lambda s: s.real_space))
+            cases.append((i, 'complex_space', cplx, [], 'property', lambda s: s.complex_space))
         if d['cls'] == 'Tensor':
             nd = len(sp.shape)
             idxs = [[1]] if nd == 1 else [[1], [2], [1, 2], [2, 1], [1, 1]]
             for idx in idxs:
-                cases.append((i, 'byaxis', '', idx, lambda s, idx=idx: s.byaxis[pyidx(idx)]))
+                cases.append((i, 'byaxis', '', idx, 'int-or-list', lambda s, idx=idx: s.byaxis[pyidx(idx)]))
             if nd == 2:
-                cases.append((i, 'byaxis', '', [1, 2], lambda s: s.byaxis[:]))
-                cases.append((i, 'byaxis', '', [2], lambda s: s.byaxis[1:]))
+                cases.append((i, 'byaxis', '', [1, 2], 'slice', lambda s: s.byaxis[:]))
+                cases.append((i, 'byaxis', '', [2], 'slice', lambda s: s.byaxis[1:]))
         if d['cls'] == 'Discr':
             nd = len(sp.shape)
             idxs = [[1]] if nd == 1 else [[1], [2], [1, 2], [2, 1]]
             for idx in idxs:
-                cases.append((i, 'byaxis_in', '', idx, lambda s, idx=idx: s.byaxis_in[pyidx(idx)]))
+                cases.append((i, 'byaxis_in', '', idx, 'int-or-list', lambda s, idx=idx: s.byaxis_in[pyidx(idx)]))
             if nd == 2:
-                cases.append((i, 'byaxis_in', '', [2], lambda s: s.byaxis_in[1:]))
+                cases.append((i, 'byaxis_in', '', [2], 'slice', lambda s: s.byaxis_in[1:]))
         if d['cls'] == 'PSpace':
             n = len(sp)
             for k in range(1, n + 1):
-                cases.append((i, 'getitem-int', '', [k], lambda s, k=k: s[k - 1]))
-            cases.append((i, 'getitem-int', '', [n], lambda s: s[-1]))
-            cases.append((i, 'getitem-list', '', list(range(1, n + 1)), lambda s: s[:]))
-            cases.append((i, 'getitem-list', '', list(range(2, n + 1)), lambda s: s[1:]))
-            cases.append((i, 'getitem-list', '', [1], lambda s: s[:1]))
-            cases.append((i, 'getitem-list', '', [n, 1], lambda s, n=n: s[[n - 1, 0]]))
-            cases.append((i, 'getitem-list', '', list(range(1, n + 1, 2)), lambda s: s[::2]))
+                cases.append((i, 'getitem-int', '', [k], 'int', lambda s, k=k: s[k - 1]))
+            cases.append((i, 'getitem-int', '', [n], 'negative-int', lambda s: s[-1]))
+            cases.append((i, 'getitem-list', '', list(range(1, n + 1)), 'slice', lambda s: s[:]))
+            cases.append((i, 'getitem-list', '', list(range(2, n + 1)), 'slice-from-1', lambda s: s[1:]))
+            cases.append((i, 'getitem-list', '', [1], 'slice-to-1', lambda s: s[:1]))
+            cases.append((i, 'getitem-list', '', [n, 1], 'list', lambda s, n=n: s[[n - 1, 0]]))
+            cases.append((i, 'getitem-list', '', list(range(1, n + 1, 2)), 'stepped-slice', lambda s: s[::2]))
     return cases
 
 
@@ -395,11 +395,11 @@ def run(ctx):
         extra_events.append({'ev': 'element', 'id': eid, 'spc': recs[i]['d'], 'inp': idesc, 'out': outp})
         meta[eid] = {'kind': 'element', 'oid': recs[i]['oid'], 'label': label, 'err': err}
         ctx.count(['element', recs[i]['k'], label], label not in ('data-own-dtype',))
-    for i, op, dt, idx, fn in derived_cases(recs, objs):
+    for i, op, dt, idx, form, fn in derived_cases(recs, objs):
         outp, err = run_derived(objs[i], fn)
         eid += 1
         extra_events.append({'ev': 'derived', 'id': eid, 'op': op, 'spc': recs[i]['d'], 'dt': dt, 'idx': idx, 'out': outp})
-        meta[eid] = {'kind': 'derived', 'oid': recs[i]['oid'], 'op': op, 'dt': dt, 'idx': idx, 'err': err}
+        meta[eid] = {'kind': 'derived', 'oid': recs[i]['oid'], 'op': op, 'dt': dt, 'idx': idx, 'form': form, 'err': err}
         ctx.count(['derived', recs[i]['k'], op, dt, idx], True)
     nidx = 0
     for i, (r, sp) in enumerate(zip(recs, objs)):
@@ -539,8 +539,8 @@ def replay(body):
     sp = b.build(ev['spc'], 1)
     print('space =', L.safe_repr(sp, 200))
     if d['stage'] == 'derived':
-        for i, op, dt, idx, fn in derived_cases(recs, [sp]):
-            if (op, dt, idx) == (m['op'], m['dt'], m['idx']):
+        for i, op, dt, idx, form, fn in derived_cases(recs, [sp]):
+            if (op, dt, idx, form) == (m['op'], m['dt'], m['idx'], m.get('form', form)):
                 outp, err = run_derived(sp, fn)
                 print(op, dt, idx, '->', dumps(outp), err)
                 bad = outp == ev['out']
@@ -554,6 +554,22 @@ def replay(body):
                 bad = res == ev['out']
                 print('REPRODUCED' if bad else 'NOT-REPRODUCED')
                 return 1 if bad else 0
+    if d['stage'] == 'element':
+        inp = ev['inp']
+        objs = [sp]
+        if inp['k'] == 'elem':
+            same = m['label'] == 'elem-of-%d' % m['oid']
+            recs.append({'oid': 2, 'k': 1 if inp['spc'] == ev['spc'] else 2, 'copy': 2, 'd': inp['spc']})
+            objs.append(sp if same else b.build(inp['spc'], 2))
+        for i, label, data, idesc in element_cases(recs, objs, quick=False):
+            if i == 0 and idesc['k'] == inp['k'] and idesc['shape'] == inp['shape'] and idesc['vals'] == inp['vals'] and \
+                    (inp['k'] == 'data' and label == m['label'] or inp['k'] == 'elem' and
+                     (label == 'elem-of-1') == (m['label'] == 'elem-of-%d' % m['oid'])):
+                outp, err = run_element(sp, data)
+                print('element(%s) -> %s %s   (recorded: %s)' % (m['label'], outp['k'], err, ev['out']['k']))
+                bad = outp == ev['out']
+                print('REPRODUCED' if bad else 'NOT-REPRODUCED')
+                return 1 if bad else 0
     print('event:', dumps(ev)[:600])
-    print('(element() cases are replayed by re-running the check)')
-    return 1
+    print('case not found in the regenerated case list')
+    return 2
